@@ -1,5 +1,6 @@
 import FoxModel.Lemmas.Proto
 import FoxModel.Lemmas.History
+import FoxModel.Lemmas.HistoryComplete
 import FoxModel.Driver.Hist
 /-
   Property C05 — concurrent use is linearizable (protocol model; the Go runtime part is sampled by the `conc` stream
@@ -135,9 +136,21 @@ theorem checker_no_false_alarm_fox (h : List (Call Fox.Driver.Hist.W Fox.Driver.
     (hrej : checkHistory Fox.Driver.Hist.sem h = false) : ¬ Linearizable Fox.Driver.Hist.sem h :=
   checker_no_false_alarm _ fox_sem_exposes_version h hrej
 
-/- NOT PROVED (kept as a statement):
-   theorem checker_complete_seq : (h has no two overlapping calls) → (checkHistory S h = true ↔ Linearizable S h)
-   Acceptance by the checker is sampling evidence only; the four checks are necessary, not sufficient, conditions. -/
+/-- **On histories without overlapping calls the checker decides linearizability exactly**: if every call returned before
+    the next one in the log was invoked (`SeqH`), the checker accepts the history if and only if it is linearizable - and
+    then the log order itself is the linearization. (For overlapping histories the four checks are necessary conditions
+    only: `checker_no_false_alarm`; acceptance there is sampling evidence.) -/
+theorem checker_complete_seq {σ W Q : Type} (S : Sem σ W Q) (hv : ExposesVersion S) (h : List (Call W Q))
+    (hs : SeqH h) : checkHistory S h = true ↔ Linearizable S h := by
+  constructor
+  · exact linearizable_of_check_seq S hs
+  · intro hl
+    exact checkHistory_of_linearizable S hv hl
+
+/-- an accepted sequential history replays, in its own order, as a legal execution of the specification -/
+theorem accepted_seq_replays {σ W Q : Type} (S : Sem σ W Q) (h : List (Call W Q)) (hs : SeqH h)
+    (hc : checkHistory S h = true) : (runSeq S (0, S.init) h).isSome = true :=
+  runSeq_of_check_seq S hs hc
 
 /-! non-vacuity: a counter object; a stale read is rejected, the same history with the right value is linearizable -/
 def ctr : Sem Nat Nat Unit where
@@ -163,6 +176,15 @@ example : Linearizable ctr [wCall 1 2 1 5, rCall 3 4 1] := by
   refine ⟨_, List.Perm.refl _, ?_, ?_⟩
   · simp [RT, wCall, rCall]
   · simp [runSeq, stepSeq, wCall, rCall, ctr]
+
+/-- the hypotheses of `checker_complete_seq` hold for that history: it is sequential, the counter exposes its versions,
+    and the checker accepts it (so the theorem applies in the accepting direction to a concrete history) -/
+example : SeqH [wCall 1 2 1 5, rCall 3 4 1] ∧ ExposesVersion ctr ∧ checkHistory ctr [wCall 1 2 1 5, rCall 3 4 1] = true := by
+  refine ⟨⟨by simp [wCall, rCall], by simp [wCall, rCall]⟩, ?_, ?_⟩
+  · intro v st q n hn; simp [ctr] at hn; exact hn.symm
+  · exact (checker_complete_seq ctr (by intro v st q n hn; simp [ctr] at hn; exact hn.symm) _
+      ⟨by simp [wCall, rCall], by simp [wCall, rCall]⟩).2
+      ⟨_, List.Perm.refl _, by simp [RT, wCall, rCall], by simp [runSeq, stepSeq, wCall, rCall, ctr]⟩
 end Checker
 
 end Fox.C05
